@@ -161,43 +161,43 @@ type synth struct {
 }
 
 var synthTable = map[string]synth{
-	"string":          {Carrier: "$M", Benign: `"k"`},
-	"[]byte":          {Carrier: "[]byte($M)", Benign: `[]byte("k")`},
-	"[]string":        {Carrier: "[]string{$M, \"k\"}", Benign: `[]string{"k"}`},
-	"int":             {Benign: "1"},
-	"int64":           {Benign: "int64(1)"},
-	"uint":            {Benign: "uint(1)"},
-	"uint64":          {Benign: "uint64(1)"},
-	"float64":         {Benign: "1.5"},
-	"bool":            {Benign: "true"},
-	"rune":            {Benign: "rune('k')"},
-	"int32":           {Benign: "rune('k')"},
-	"byte":            {Benign: "byte('k')"},
-	"uint8":           {Benign: "byte('k')"},
-	"error":           {Carrier: "errors.New($M)", Benign: `errors.New("k")`, Imports: []string{"errors"}},
-	"any":             {Carrier: "any($M)", Benign: "any(1)"},
-	"interface{}":     {Carrier: "any($M)", Benign: "any(1)"},
-	"[]any":           {Carrier: "[]any{$M}", Benign: "[]any{1}"},
-	"[]interface{}":   {Carrier: "[]any{$M}", Benign: "[]any{1}"},
-	"io.Reader":       {Carrier: "strings.NewReader($M)", Benign: `strings.NewReader("k")`, Imports: []string{"strings"}},
-	"io.Writer":       {Benign: "new(bytes.Buffer)", Imports: []string{"bytes"}},
-	"*bytes.Buffer":   {Carrier: "bytes.NewBufferString($M)", Benign: `bytes.NewBufferString("k")`, Imports: []string{"bytes"}},
-	"*strings.Reader": {Carrier: "strings.NewReader($M)", Benign: `strings.NewReader("k")`, Imports: []string{"strings"}},
-	"*strings.Builder": {Benign: "new(strings.Builder)", Imports: []string{"strings"}},
-	"*bufio.Reader":   {Carrier: "bufio.NewReader(strings.NewReader($M))", Benign: `bufio.NewReader(strings.NewReader("k"))`, Imports: []string{"bufio", "strings"}},
-	"*bufio.Scanner":  {Carrier: "bufio.NewScanner(strings.NewReader($M))", Benign: `bufio.NewScanner(strings.NewReader("k"))`, Imports: []string{"bufio", "strings"}},
-	"*bufio.Writer":   {Benign: "bufio.NewWriter(new(bytes.Buffer))", Imports: []string{"bufio", "bytes"}},
-	"net/url.Values":  {Carrier: "url.Values{\"k\": []string{$M}}", Benign: `url.Values{"k": []string{"v"}}`, Imports: []string{"net/url"}},
-	"*net/url.URL":    {Carrier: "&url.URL{Path: $M}", Benign: `&url.URL{Path: "k"}`, Imports: []string{"net/url"}},
-	"net/http.Header": {Carrier: "http.Header{\"K\": []string{$M}}", Benign: `http.Header{"K": []string{"v"}}`, Imports: []string{"net/http"}},
-	"time.Duration":   {Benign: "time.Second", Imports: []string{"time"}},
-	"context.Context": {Carrier: "context.WithValue(context.Background(), ctxKey{}, $M)", Benign: "context.Background()", Imports: []string{"context"}},
+	"string":                 {Carrier: "$M", Benign: `"k"`},
+	"[]byte":                 {Carrier: "[]byte($M)", Benign: `[]byte("k")`},
+	"[]string":               {Carrier: "[]string{$M, \"k\"}", Benign: `[]string{"k"}`},
+	"int":                    {Benign: "1"},
+	"int64":                  {Benign: "int64(1)"},
+	"uint":                   {Benign: "uint(1)"},
+	"uint64":                 {Benign: "uint64(1)"},
+	"float64":                {Benign: "1.5"},
+	"bool":                   {Benign: "true"},
+	"rune":                   {Benign: "rune('k')"},
+	"int32":                  {Benign: "rune('k')"},
+	"byte":                   {Benign: "byte('k')"},
+	"uint8":                  {Benign: "byte('k')"},
+	"error":                  {Carrier: "errors.New($M)", Benign: `errors.New("k")`, Imports: []string{"errors"}},
+	"any":                    {Carrier: "any($M)", Benign: "any(1)"},
+	"interface{}":            {Carrier: "any($M)", Benign: "any(1)"},
+	"[]any":                  {Carrier: "[]any{$M}", Benign: "[]any{1}"},
+	"[]interface{}":          {Carrier: "[]any{$M}", Benign: "[]any{1}"},
+	"io.Reader":              {Carrier: "strings.NewReader($M)", Benign: `strings.NewReader("k")`, Imports: []string{"strings"}},
+	"io.Writer":              {Benign: "new(bytes.Buffer)", Imports: []string{"bytes"}},
+	"*bytes.Buffer":          {Carrier: "bytes.NewBufferString($M)", Benign: `bytes.NewBufferString("k")`, Imports: []string{"bytes"}},
+	"*strings.Reader":        {Carrier: "strings.NewReader($M)", Benign: `strings.NewReader("k")`, Imports: []string{"strings"}},
+	"*strings.Builder":       {Benign: "new(strings.Builder)", Imports: []string{"strings"}},
+	"*bufio.Reader":          {Carrier: "bufio.NewReader(strings.NewReader($M))", Benign: `bufio.NewReader(strings.NewReader("k"))`, Imports: []string{"bufio", "strings"}},
+	"*bufio.Scanner":         {Carrier: "bufio.NewScanner(strings.NewReader($M))", Benign: `bufio.NewScanner(strings.NewReader("k"))`, Imports: []string{"bufio", "strings"}},
+	"*bufio.Writer":          {Benign: "bufio.NewWriter(new(bytes.Buffer))", Imports: []string{"bufio", "bytes"}},
+	"net/url.Values":         {Carrier: "url.Values{\"k\": []string{$M}}", Benign: `url.Values{"k": []string{"v"}}`, Imports: []string{"net/url"}},
+	"*net/url.URL":           {Carrier: "&url.URL{Path: $M}", Benign: `&url.URL{Path: "k"}`, Imports: []string{"net/url"}},
+	"net/http.Header":        {Carrier: "http.Header{\"K\": []string{$M}}", Benign: `http.Header{"K": []string{"v"}}`, Imports: []string{"net/http"}},
+	"time.Duration":          {Benign: "time.Second", Imports: []string{"time"}},
+	"context.Context":        {Carrier: "context.WithValue(context.Background(), ctxKey{}, $M)", Benign: "context.Background()", Imports: []string{"context"}},
 	"*encoding/json.Decoder": {Carrier: "json.NewDecoder(strings.NewReader(\"\\\"\" + $M + \"\\\"\"))", Benign: `json.NewDecoder(strings.NewReader("1"))`, Imports: []string{"encoding/json", "strings"}},
 	"*encoding/json.Encoder": {Benign: "json.NewEncoder(new(bytes.Buffer))", Imports: []string{"encoding/json", "bytes"}},
-	"*regexp.Regexp":  {Benign: `regexp.MustCompile("k")`, Imports: []string{"regexp"}},
-	"*strings.Replacer": {Carrier: "strings.NewReplacer(\"k\", $M)", Benign: `strings.NewReplacer("a", "b")`, Imports: []string{"strings"}},
-	"func(rune) bool": {Benign: "func(r rune) bool { return false }"},
-	"func(rune) rune": {Benign: "func(r rune) rune { return r }"},
+	"*regexp.Regexp":         {Benign: `regexp.MustCompile("k")`, Imports: []string{"regexp"}},
+	"*strings.Replacer":      {Carrier: "strings.NewReplacer(\"k\", $M)", Benign: `strings.NewReplacer("a", "b")`, Imports: []string{"strings"}},
+	"func(rune) bool":        {Benign: "func(r rune) bool { return false }"},
+	"func(rune) rune":        {Benign: "func(r rune) rune { return r }"},
 }
 
 func shortType(t string) string {
